@@ -22,20 +22,22 @@ CENSUS = {
             '~Peers::get_headers_to_fetch', '~Peers::get_txs_to_fetch', '~+Peers::add_fetch_header' + D, '~+Peers::add_fetch_tx' + D,
             '+FetchInfo::new_add', '~+Peers::remove_fetching_header' + D, '~+Peers::remove_fetching_transaction' + D],
     'C18': ['+PendingTxs::push', '~+PendingTxs::fetch_transaction_hashes_for_broadcast', '<ChainRpcImpl as ChainRpc>::estimate_cycles',
-            'verify_tx', '~resolve_tx', 'ContextualTransactionVerifier::verify'],
+            'verify_tx', '~resolve_tx', 'ContextualTransactionVerifier::verify',
+            '<Storage as CellProvider>::cell', 'CompatibleVerifier::verify', '<StorageWithChainData as HeaderProvider>::get_header'],
     'C01': ['check_if_response_is_matched', 'check_continuous_headers', 'verify_mmr_proof',
             '<HeaderView as HeaderUtils>::is_parent_of', '<VerifiableHeader as VerifiableHeaderPatch>::patched_is_valid',
             '<VerifiableHeader as VerifiableHeaderPatch>::checked_total_difficulty',
             'LightClientProtocol::check_pow_for_headers', 'LightClientProtocol::check_chain_root_for_headers',
-            'LightClientProtocol::check_verifiable_header', 'ProveRequest::is_same_as', 'LastState::is_same_as'],
-    'C02': ['verify_mmr_proof', 'check_block_body', 'verify_extra_hash', '~+Peers::add_block', '~TransactionsProofRequest::check_tx_hashes', '~BlocksProofRequest::check_block_hashes'],
+            'LightClientProtocol::check_verifiable_header', 'ProveRequest::is_same_as', 'LastState::is_same_as',
+            'LightClientProtocol::check_total_difficulty_for_continuous_headers'],
+    'C02': ['strict_merkle_proof_root', 'verify_mmr_proof', 'check_block_body', 'verify_extra_hash', '~+Peers::add_block', '~TransactionsProofRequest::check_tx_hashes', '~BlocksProofRequest::check_block_hashes'],
     'C06': ['Peers::calc_check_point_number', 'Peers::calc_cached_check_point_index_when_sync_at',
             '+LatestBlockFilterHashes::update_latest_block_filter_hashes', '~+Peers::get_latest_block_filter_hashes',
             'LatestBlockFilterHashes::get_last_number'],
     'C07': ['+CheckPoints::add_check_points', '+CheckPoints::remove_first_n_check_points', 'CheckPoints::number_of_first_check_point',
             'CheckPoints::number_of_last_check_point', 'CheckPoints::number_of_next_check_point', 'CheckPoints::if_require_next_check_point',
             'Peers::required_peers_count', 'Storage::update_check_points' + S, 'Storage::update_max_check_point_index' + S],
-    'C12': ['ProveState::is_parent_of', 'check_last_state', 'ProveState::new_child', 'ProveState::is_same_as',
+    'C12': ['LightClientProtocol::check_total_difficulty_for_continuous_headers', 'ProveState::is_parent_of', 'check_last_state', 'ProveState::new_child', 'ProveState::is_same_as',
             'Storage::update_last_state' + S, 'Storage::update_last_n_headers' + S],
     'C13': ['~<BlockFilterRpcImpl as BlockFilterRpc>::get_cells', '~<BlockFilterRpcImpl as BlockFilterRpc>::get_cells_capacity',
             '~<BlockFilterRpcImpl as BlockFilterRpc>::get_transactions'],
@@ -56,7 +58,7 @@ HANDLERS = {
             '!BlockFilterCheckPointsProcess::execute@^Peers::add_check_points$'],
     'C07': ['!LightClientProtocol::finalize_check_points@^(Storage::(update_check_points|update_max_check_point_index)|Peers::remove_first_n_check_points)$'],
     'C12': ['!SendLastStateProcess::execute@^(LightClientProtocol::(update_prove_state_to_child|get_last_state_proof)|Peers::update_last_state)$',
-            '!LightClientProtocol::commit_prove_state@^(Storage::(update_last_state|rollback_to_block)|Peers::update_prove_state)$',
+            '!LightClientProtocol::commit_prove_state@^(Storage::(update_last_state|rollback_to_block|add_matched_blocks|remove_matched_blocks)|Peers::update_prove_state)$',
             '!LightClientProtocol::update_prove_state_to_child@^(Storage::update_last_state|Peers::update_prove_state)$'],
     'C18': ['!<TransactionRpcImpl as TransactionRpc>::send_transaction@^PendingTxs::push$'],
 }
@@ -69,7 +71,7 @@ HANDLERS['C12'] = HANDLERS['C12'] + [HANDLERS['C01'][0]]
 CENSUS['C12'].append(HANDLERS['C01'][0])
 HANDLERS['C16'] = [HANDLERS['C02'][0], HANDLERS['C02'][1], '!LightClientProtocol::fetch_headers_txs@^Peers::(fetching_idle_txs|fetching_idle_headers|update_blocks_proof_request|update_txs_proof_request)$']
 CENSUS['C16'].extend(HANDLERS['C16'])
-CENSUS['C16'].extend(['~TransactionsProofRequest::check_tx_hashes', '~BlocksProofRequest::check_block_hashes'])
+CENSUS['C16'].extend(['strict_merkle_proof_root', '~TransactionsProofRequest::check_tx_hashes', '~BlocksProofRequest::check_block_hashes'])
 HANDLERS['C09'] = [HANDLERS['C02'][2], HANDLERS['C06'][0]]
 HANDLERS['C08'] = [HANDLERS['C12'][1], HANDLERS['C02'][2], HANDLERS['C06'][0], HANDLERS['C07'][0]]
 for _k in ('C08', 'C09'):
